@@ -105,7 +105,8 @@ NameOfNum(x) == CHOOSE n \in EnumNames : EnumNum[n] = x
 
 \* values of path-capable leaves: sequences of non-empty segments
 PV == [ x1 |-> <<"x1">>, i2 |-> <<"items", "a1">>, s2 |-> <<"shelves", "s1">>, i3 |-> <<"items", "a1", "b2">>,
-        s4 |-> <<"shelves", "s1", "items", "a1">>, sp |-> <<"items", "a b">>, j2 |-> <<"items", "c3">> ]
+        s4 |-> <<"shelves", "s1", "items", "a1">>, sp |-> <<"items", "a b">>, j2 |-> <<"items", "c3">>,
+        c2 |-> <<"class", "a1">> ]
 SetVals(l) == CASE Kind(l) = "segs"  -> {PV[i] : i \in PathValIds}
                 [] Kind(l) = "str"   -> {<<"t1">>}
                 [] Kind(l) = "enum"  -> {<<"BIG">>, <<"SMALL">>}
@@ -134,6 +135,7 @@ PathTab ==
   @@ "in2"   :> << TV("inner.name", <<"items", "*">>, "") >>                           \* nested {inner.name=items/*}
   @@ "in4c"  :> << TV("inner.name", <<"shelves", "*", "items", "*">>, ":del") >>       \* nested, 4 segments, :verb
   @@ "cls2"  :> << TV("class", <<"items", "*">>, "") >>                                \* reserved word as field name
+  @@ "clsS"  :> << TV("class", <<"class", "*">>, "") >>                                \* ... whose template contains the word itself: {class=class/*}
   @@ "int1"  :> << TL("n"), TV("r_int32", <<>>, "") >>                                 \* n/{r_int32}: integer field
 BLit == <<"b1", "b2", "b3", "b4">>           \* literal naming the position of the binding inside the rule
 VerbSeq == <<"get", "post", "put", "delete", "patch">>
